@@ -126,6 +126,41 @@ theorem bounded_lifo {W : Nat} (hW : ValidW W) (cap : Nat) (bs : List Bool) {c :
   · rw [(stack_write_read hW h1).2.1, h2]
   · rw [len_exact _ (by rw [h2]; exact hl), h2]; simp
 
+/-- **export over a bounded sink**: `into_compressed` is refused, or returns exactly the words the
+    same coder exports into a `Vec` (never a truncated or padded stream) — stack -/
+theorem bounded_stack_export (W cap : Nat) (c : Coder) {ws : List Nat}
+    (h : Stack.intoCompressedB W cap c = some ws) : ws = Stack.intoCompressed W c := by
+  unfold Stack.intoCompressedB at h
+  unfold Stack.intoCompressed
+  cases hw : writeBitB W cap c true with
+  | mk c' ok =>
+    rw [hw] at h
+    cases ok with
+    | false => cases h
+    | true =>
+      have hacc := bounded_accepted_is_write W cap c true (by rw [hw])
+      rw [hw] at hacc
+      simp only at hacc h ⊢
+      rw [← hacc]
+      by_cases hm : c'.mask ≠ 0
+      · rw [if_pos hm] at h ⊢
+        by_cases hc : cap ≤ c'.backend.length
+        · rw [if_pos hc] at h; cases h
+        · rw [if_neg hc] at h; injection h with h; exact h.symm
+      · rw [if_neg hm] at h ⊢; injection h with h; exact h.symm
+
+/-- the same for the queue encoder (which has no terminator bit to write) -/
+theorem bounded_queue_export (cap : Nat) (c : Coder) {ws : List Nat}
+    (h : Queue.intoCompressedB cap c = some ws) : ws = Queue.intoCompressed c := by
+  unfold Queue.intoCompressedB at h
+  unfold Queue.intoCompressed
+  by_cases hm : c.mask ≠ 0
+  · rw [if_pos hm] at h ⊢
+    by_cases hc : cap ≤ c.backend.length
+    · rw [if_pos hc] at h; cases h
+    · rw [if_neg hc] at h; injection h with h; exact h.symm
+  · rw [if_neg hm] at h ⊢; injection h with h; exact h.symm
+
 /-- non-vacuity: `u8` words, a sink of two words, 20 one-bits: exactly 16 + 8 = 24 … no: the
     buffer word holds 8 more, so 24 fit and the rest is refused -/
 example : (writeBitsB 8 2 empty (List.replicate 30 true)).2 = (List.replicate 24 true, false) := by
@@ -143,3 +178,5 @@ end CV.Bits.C16B
 #print axioms CV.Bits.C16B.bounded_history
 #print axioms CV.Bits.C16B.bounded_bits
 #print axioms CV.Bits.C16B.bounded_lifo
+#print axioms CV.Bits.C16B.bounded_stack_export
+#print axioms CV.Bits.C16B.bounded_queue_export
